@@ -213,6 +213,9 @@ def check_pipeline(ctx, rep, rule):
         else:
             # an error path: must be a prefix of the pipeline and return the propagated error of its last stage
             pref = want[:len(names)] == names
+            # an error handed on through a helper and `?` again is still that error: errof(errof(X)) = errof(X)
+            while r and r[0] == 'errof' and isinstance(r[1], tuple) and r[1] and r[1][0] in ('errof', 'errval'):
+                r = ('errof', r[1][1])
             okerr = r and r[0] == 'errof' and r[1][0] == 'call' and names and r[1][1] == names[-1] if r and r[0] == 'errof' else False
             rep.ob(pref and okerr, rule, 'eval', 'error path after %s' % (names[-1].split('::')[-1] if names else 'nothing'),
                    'the error of the failing stage is returned unchanged and no later stage runs: calls %s' % [n.split('::')[-1] for n in names], fn.loc())
